@@ -161,7 +161,7 @@ func (g *Gen) text(kind string) string {
 		s += strings.Repeat("x𝔘 line of filler text\n", n)
 	}
 	s = fmt.Sprintf("%s %d", s, g.R.Intn(100000))
-	if g.Text != "plain" && g.R.Chance(1, 8) {
+	if g.Text != "plain" && g.R.Chance(1, 5) {
 		// surrounding whitespace: kept verbatim by JSON input and plan, trimmed
 		// (titles only) by flags and by set
 		s = g.oneOf(" ", "  ", "\t", "\n", "") + s + g.oneOf(" ", "   ", "\t", " \n", "")
